@@ -4,6 +4,7 @@ import (
 	"fmt"
 	"go/token"
 	"go/types"
+	"os"
 	"sort"
 	"strings"
 
@@ -72,6 +73,15 @@ func (a *argAnalysis) markExt(v ssa.Value) {
 	}
 	a.ext[v] = true
 	a.changed = true
+	if dbg := os.Getenv("VERIF_E2_DEBUG"); dbg != "" && strings.Contains(v.Type().String(), dbg) {
+		fn := "?"
+		if in, ok := v.(ssa.Instruction); ok && in.Parent() != nil {
+			fn = in.Parent().Name()
+		} else if p, ok := v.(*ssa.Parameter); ok {
+			fn = p.Parent().Name() + " (param)"
+		}
+		fmt.Fprintf(os.Stderr, "E2 ext: %s %s : %s in %s\n", v.Name(), v.String(), v.Type(), fn)
+	}
 }
 
 func (a *argAnalysis) markHolds(v ssa.Value) {
@@ -80,6 +90,9 @@ func (a *argAnalysis) markHolds(v ssa.Value) {
 	}
 	if _, isConst := v.(*ssa.Const); isConst {
 		return
+	}
+	if !pointerLike(v.Type()) {
+		return // a value without pointers cannot hold the caller's pointers (e.g. the string of a (string, []T) result)
 	}
 	a.holds[v] = true
 	a.changed = true
